@@ -4,11 +4,11 @@ import BlockCiphers.Prelude.Bytes
 namespace BC
 
 theorem bswap16_bswap16 (x : BitVec 16) : bswap16 (bswap16 x) = x := by
-  unfold bswap16; bv_decide
+  unfold bswap16; bv_decide (config := { timeout := 600 })
 theorem bswap32_bswap32 (x : BitVec 32) : bswap32 (bswap32 x) = x := by
-  unfold bswap32; bv_decide
+  unfold bswap32; bv_decide (config := { timeout := 600 })
 theorem bswap64_bswap64 (x : BitVec 64) : bswap64 (bswap64 x) = x := by
-  unfold bswap64; bv_decide
+  unfold bswap64; bv_decide (config := { timeout := 600 })
 
 
 end BC
